@@ -13,6 +13,7 @@ DRIVERS = {
     'call_binary': {'vm': 'call_binary'},
     'sqf_yylex': {'vm': 'sqf_yylex'},
     'array_ops': {'vm': 'array_ops'},
+    'while_loop': {'vm': 'while_loop'},
     'operators_total': {'vm': 'operators_total'},
     'runtime_core': {'vm': 'runtime_core'},
     'runtime_execute': {'vm': 'runtime_step'},
